@@ -1608,8 +1608,30 @@ class Interp:
         if slo is not None and shi is not None:
             lo, hi = INT_TYPES[dst_ty]
             triv = slo >= lo and shi <= hi
-        self.oblige(st, "cast", "narrowing cast %s -> %s is lossless" % (src_ty, dst_ty), inrange, self.cur_site,
-                    self.cur_sp, detail, triv, expn=self.cur_expn)
+        desc = "narrowing cast %s -> %s is lossless" % (src_ty, dst_ty)
+        if not inrange and self.opts.get("defer_cast", True) and dst_ty in INT_TYPES:
+            # decided where the truncated value can first matter: at the next write to a writer, or when the root
+            # returns without an error (a path that goes on to return Err discards the value)
+            lo, hi = INT_TYPES[dst_ty]
+            fr0 = st.frames[-1]
+            st.notes["lossy"] = st.notes.get("lossy", ()) + ((fr0.body["path"], self.cur_site, desc, self.ctx(st),
+                                                              self.cur_sp, self.cur_expn, v.lin, lo, hi),)
+            return
+        self.oblige(st, "cast", desc, inrange, self.cur_site, self.cur_sp, detail, triv, expn=self.cur_expn)
+
+    def decide_lossy(self, st, discarded=False, why=""):
+        pend = st.notes.get("lossy")
+        if not pend:
+            return
+        st.notes["lossy"] = ()
+        for (fn, site, desc, ctx, sp, expn, lin, lo, hi) in pend:
+            if discarded:
+                ok, detail = True, "truncated value is discarded: the path returns Err"
+            else:
+                ok = st.entails(lin - lo) and st.entails(Lin.const(hi) - lin)
+                detail = "" if ok else "operand %s not proved inside [%d, %d] %s; facts: %s" % (
+                    show_lin(lin), lo, hi, why, self.show_facts(st, lin))
+            self.sink.add(Oblig("cast", fn, site, desc, ok, ctx, sp, detail, False, expn))
 
     def ptr_add(self, st, p, n, what="ptr.add"):
         noff = p.off + n
@@ -2062,6 +2084,11 @@ class Interp:
         rv = fr.locals.get(0)
         if rv is None:
             rv = VTuple(())
+        if len(st.frames) == 1 and st.notes.get("lossy"):
+            is_err = isinstance(rv, VAdt) and rv.path == "core::result::Result" and (
+                rv.variant == 1 or (rv.variant is None and rv.key is not None and
+                                    st.entails(Lin.atom(self.discr_atom(rv)) - 1)))
+            self.decide_lossy(st, discarded=is_err, why="when the function returns")
         st.frames.pop()
         if not st.frames:
             if self.return_hook:
@@ -2401,6 +2428,8 @@ class Interp:
             return self.call_value(st, fv, args, dty, ret_k, site)
         path = callee.get("res") or callee["decl"]
         decl = callee["decl"]
+        if st.notes.get("lossy") and decl in ("writer::CoreWrite::write_all", "std::io::Write::write_all"):
+            self.decide_lossy(st, why="before the next write")
         if self.inv_targets is not None:
             body0 = self.F.bodies.get(path) if callee.get("res_local") else None
             will_inline = body0 is not None and (len(st.frames) <= self.max_depth or body0.get("unsafe")) and \
@@ -2446,10 +2475,27 @@ class Interp:
             body["_leaf"] = r
         return r
 
+    def is_guard_fn(self, body):
+        """small loop-free function that can reject its argument with a ValueTooBigError: what its Ok return implies is
+        needed by the caller (a later narrowing of the same quantity), so it is inlined one level beyond the depth"""
+        r = body.get("_guard")
+        if r is None:
+            r = False
+            if len(body["blocks"]) <= 60 and not cfg_info(body)["loops"] and body["kind"] != "Closure":
+                t = self.rt(body["locals"][0][0])
+                if isinstance(t, dict) and t.get("k") == "adt" and t["path"] == "core::result::Result" and \
+                        len(t["args"]) == 2 and "t" in t["args"][1]:
+                    e = self.rt(t["args"][1]["t"])
+                    r = isinstance(e, dict) and e.get("k") == "adt" and e["path"].endswith("ValueTooBigError")
+            body["_guard"] = r
+        return r
+
     def call_body(self, st, body, args, dty, ret_k, site, callee=None, force=False):
         depth = len(st.frames)
         path = body["path"]
         if not force and depth > self.max_depth and self.is_small_leaf(body):
+            force = True
+        if not force and depth == self.max_depth + 1 and self.is_guard_fn(body):
             force = True
         recursive = any(f.body is body for f in st.frames)
         if (depth > self.max_depth and not force) or recursive or depth > self.max_depth + 3:
